@@ -592,6 +592,32 @@ fn gen_parse(r: &mut Rng, n: usize, truncation_sweeps: usize) -> Vec<String> {
     ops
 }
 
+/// The repository's interop fixtures (frames produced by other REPE implementations): each must parse with
+/// every parser, and re-serialise to exactly the fixture bytes (one encoding).
+fn fixture_ops(out: &mut Out) -> Vec<String> {
+    let repo = std::env::var("VERIF_REPO").unwrap_or_else(|_| "/repo".into());
+    let dir = std::path::Path::new(&repo).join("interop/fixtures");
+    let mut ops = Vec::new();
+    let mut names: Vec<_> = std::fs::read_dir(&dir).map(|d| d.filter_map(|e| e.ok()).map(|e| e.path()).filter(|p| p.extension().map(|x| x == "repe").unwrap_or(false)).collect()).unwrap_or_default();
+    names.sort();
+    for (i, p) in names.iter().enumerate() {
+        let Ok(bytes) = std::fs::read(p) else { continue };
+        for name in ["hdr", "slice", "slicex", "view", "viewx", "read0", "read1", "read2", "read3"] {
+            ops.push(format!("{} fx{}{} {}", name, i, name, hex(&bytes)));
+        }
+        match Message::from_slice_exact(&bytes) {
+            Ok(m) => {
+                if m.to_vec() != bytes || m.clone().into_wire_bytes() != bytes {
+                    out.oracle_fail("wire.fixture.reencode", &format!("fixture {:?} does not re-serialise to its own bytes", p.file_name()), &[format!("slicex fx{} {}", i, hex(&bytes))]);
+                }
+                out.count("wire.fixture.ok");
+            }
+            Err(e) => out.oracle_fail("wire.fixture.parse", &format!("fixture {:?} does not parse: {}", p.file_name(), err_class(&e)), &[format!("slicex fx{} {}", i, hex(&bytes))]),
+        }
+    }
+    ops
+}
+
 fn main() {
     let args = Args::parse();
     let family = args.extra.first().cloned().unwrap_or_else(|| "wire".into());
@@ -605,7 +631,9 @@ fn main() {
         ops.into_iter().filter(|l| !l.starts_with("mode ")).collect()
     } else if family == "wire" {
         out.rule = "messages with every header field boundary-biased over its full width, 70% consistent; query/body lengths 0..64 KiB biased to 0,1,47-49,255-257,4095-4097,65535-65537; body Vec capacity below/equal/above 48+|q|+|b|; routes to_vec, write_to, into_wire_bytes, write_message, write_message_async, write_message_streaming, builder. Distinct by op line; non-trivial = consistent header (round trip exercised) or a builder case".into();
-        if args.thorough() { gen_wire(&mut rng, 60000, 40) } else { gen_wire(&mut rng, 3000, 60) }
+        let mut ops = fixture_ops(&mut out);
+        ops.extend(if args.thorough() { gen_wire(&mut rng, 60000, 40) } else { gen_wire(&mut rng, 3000, 60) });
+        ops
     } else {
         out.flush_each = true;
         out.rule = "byte strings: arbitrary (0..4 KiB), valid frames, valid+trailing, truncated, single-field mutations, the three length fields over the boundary lattice {0,small,|buf|-48±1,2^31,2^32,2^62,2^63,2^64-k} incl. wrapping sums, over-declaring headers; each through decode, 4 slice parsers and (when the declared sizes are <=16 MiB or >=2^62) 4 stream readers; plus streams cut at every byte position. Distinct by op line; non-trivial = the entry point returned Ok".into();
